@@ -1271,6 +1271,7 @@ type rrPlan struct {
 	NewItems   int       `json:"new_items"`
 	WarmRead   bool      `json:"warm_read_before_remove"`
 	Keep       bool      `json:"second_store_must_survive"`
+	Queued     bool      `json:"remove_queued_behind_store_list_lock_while_a_reader_opens_the_store"`
 }
 
 type rrResult struct {
@@ -1292,6 +1293,7 @@ func genRRPlan(rnd *rand.Rand, seed int64, salt, layout string) rrPlan {
 		OldCommits: 1 + rnd.Intn(3), WarmRead: rnd.Intn(2) == 0, Keep: rnd.Intn(2) == 0}
 	p.OldItems = 1 + rnd.Intn(3*old.Slot)
 	p.NewItems = rnd.Intn(3 * p.New.Slot)
+	p.Queued = layout != "replicated" && rnd.Intn(2) == 0
 	return p
 }
 
@@ -1327,6 +1329,13 @@ func rrModels(pl rrPlan) (before, after map[string]*wantStore) {
 func runRRSteps(pl rrPlan) (res rrResult) {
 	res.Notes = map[string]any{}
 	sp := pl.Spec
+	if pl.Queued {
+		if err := setupGate(); err != nil {
+			res.Unusable = "gate: " + err.Error()
+			return
+		}
+		sp.Gated = true
+	}
 	d := sp.db()
 	site := pl.Layout
 	before, after := rrModels(pl)
@@ -1379,7 +1388,49 @@ func runRRSteps(pl rrPlan) (res rrResult) {
 	}
 
 	// 2. remove
-	if err := database.RemoveBtree(sopx.Ctx, d.Opts, rrStore); err != nil {
+	if pl.Queued {
+		// the removal has to queue for the store-list lock (it parks at the gate); while it waits another
+		// session opens the store and reads its count; then the lock is granted and the removal completes
+		arrived, release := theGate.arm()
+		done := make(chan error, 1)
+		go func() { done <- database.RemoveBtree(sopx.Ctx, d.Opts, rrStore) }()
+		parked := false
+		var rerr error
+		finished := false
+		select {
+		case <-arrived:
+			parked = true
+		case rerr = <-done:
+			finished = true
+		case <-time.After(15 * time.Second):
+			theGate.disarm()
+			res.Unusable = "queued RemoveBtree neither parked nor returned within 15 s"
+			return
+		}
+		if parked {
+			if t, err := d.Begin(sop.ForReading); err == nil {
+				if b, err := sopx.Open[string, string](d, t, rrStore); err == nil {
+					res.Notes["count_read_while_the_removal_was_queued"] = b.Count()
+				}
+				t.Rollback(sopx.Ctx)
+			}
+			close(release)
+			select {
+			case rerr = <-done:
+				finished = true
+			case <-time.After(60 * time.Second):
+			}
+		}
+		theGate.disarm()
+		if !finished {
+			res.Unusable = "queued RemoveBtree did not return within 60 s after the lock was released"
+			return
+		}
+		if rerr != nil {
+			res.Unusable = "RemoveBtree returned: " + rerr.Error()
+			return
+		}
+	} else if err := database.RemoveBtree(sopx.Ctx, d.Opts, rrStore); err != nil {
 		res.Unusable = "RemoveBtree returned: " + err.Error()
 		return
 	}
